@@ -850,14 +850,26 @@ func c07registeredInsideFlight(c *Ctx) {
 					}
 				}
 			}
-			for _, l := range lits {
+			var countInside func(l *ssa.Function, d int)
+			countInside = func(l *ssa.Function, d int) {
 				for _, b := range l.Blocks {
 					for _, ins := range b.Instrs {
-						if mu, ok := ins.(*ssa.MapUpdate); ok && isRecvMapUpdate(l, mu) {
-							inside++
+						switch x := ins.(type) {
+						case *ssa.MapUpdate:
+							if isRecvMapUpdate(l, x) || d > 0 {
+								inside++
+							}
+						case ssa.CallInstruction:
+							// a helper introduced after the pinned tree (the literal's body extracted) is part of the literal
+							if cal := x.Common().StaticCallee(); cal != nil && cal.Pkg == l.Pkg && d < 2 && cal.Blocks != nil && !baselineFuncs[cal.String()] {
+								countInside(cal, d+1)
+							}
 						}
 					}
 				}
+			}
+			for _, l := range lits {
+				countInside(l, 0)
 			}
 		}
 	}
